@@ -3,11 +3,14 @@ from harness import coqio as q
 from harness.props import _dist_common as dc
 
 ID = "C23"
-COQ_REQUIRE = ["M_Dist"]
-COQ_CASE_TYPE = "M_Dist.case"
-COQ_CHECK = "M_Dist.check_case"
+COQ_REQUIRE = ["M_Dist", "M_Dist2"]
+COQ_CASE_TYPE = "M_Dist2.case2"
+COQ_CHECK = "M_Dist2.check_case2"
 OBLIGATIONS = ["valid_or_impossible_oneagent", "valid_or_impossible_gh_cgdp",
-               "valid_or_impossible_heur_comhost", "must_host_ignored_refuted", "adhoc_secp_refuted"]
+               "valid_or_impossible_heur_comhost", "must_host_ignored_refuted", "adhoc_secp_refuted",
+               "valid_or_impossible_adhoc", "must_host_honoured_adhoc", "gh_cgdp_pins_zero_cost",
+               "must_host_by_cost_gh_cgdp", "ilp_feasible_decodes_valid_oilp",
+               "ilp_feasible_decodes_valid_fgdp", "ilp_must_host_ignored_refuted"]
 N_QUICK, N_THOROUGH = 400, 6000
 PARALLEL = 8
 SHARD = 100
@@ -16,7 +19,7 @@ RULE = ("seeded random DCOPs (1-4 binary variables, 0-4 constraints of arity 1-3
         "graph by the REAL builder of one of the four graph models; 1-4 agents (oneagent: 1-6) with tight / "
         "ample / mixed / tiny capacities, default-0 / positive / some-zero / mixed hosting costs, routes; "
         "footprints 0-6, communication loads; well-formed must_host hints (45%) and host_with hints (adhoc, "
-        "25%); method drawn among oneagent, adhoc, gh_cgdp, heur_comhost, oilp_cgdp, ilp_fgdp (factor graphs "
+        "25%; adhoc on factor graphs, 30%: a factor hosted with one variable = the SECP shape); method drawn among oneagent, adhoc, gh_cgdp, heur_comhost, oilp_cgdp, ilp_fgdp (factor graphs "
         "only) and called through the API with random/shuffle/choice replaced by the case's draws and GLPK by "
         "PuLP's CBC in the driver process; non-trivial = at least 2 computations; distinct = distinct case JSON")
 MODELLED = ("theorems (all instances, all rankings/draws, termination of the backtracking loop included): "
@@ -69,9 +72,26 @@ def gen(rng, n, tier):
         graphs = ["factor_graph"] if method == "ilp_fgdp" else dc.GRAPHS
         c = dc.gen_instance(rng, graphs=graphs,
                             max_agents=6 if method == "oneagent" else 4)
+        if method == "adhoc" and rng.random() < 0.4:
+            # order-sensitive capacities (just above an even share; adhoc's test is a strict `>`):
+            # the first attempt often fails in the scoring loop and a retry with another shuffle
+            # succeeds, so the retry path is compared and not only "first try" / "all four fail"
+            na, total = len(c["agents"]), sum(c["fp"].values())
+            for a in c["agents"]:
+                a["capacity"] = total // na + rng.randint(1, 3)
+            c["tight"] = "retry"
         c["method"] = method
         c["via"] = "api"
         dc.add_hints(rng, c, p_must=0.45, p_with=0.25 if method == "adhoc" else 0.0)
+        if method == "adhoc" and c["graph"] == "factor_graph" and c["cons"] and rng.random() < 0.3:
+            # the SECP shape (a factor hosted with one variable): the first loop of adhoc fires,
+            # the guard secp_free of the theorem is false (finding C23-adhoc-secp-hostwith)
+            k = rng.randrange(len(c["cons"]))
+            c["host_with"] = {"c%d" % k: ["v%d" % rng.choice(c["cons"][k] if rng.random() < 0.7
+                                                             else list(range(c["nv"])))]}
+            if c["nv"] >= 2 and rng.random() < 0.35:
+                # a group of two variables: NOT the SECP shape (the guard holds), hinted agents matter
+                c["host_with"] = {"c%d" % k: ["v%d" % j for j in rng.sample(range(c["nv"]), 2)]}
         cases.append(c)
     return cases
 
@@ -209,14 +229,30 @@ def obs_term(res):
     return "OError"
 
 
+def hints_wf_py(c, o):
+    """the harness' own evaluation of the guard M_Dist2.hints_wfb (well-formed hints)"""
+    comps = {n[0] for n in o["graph"]["nodes"]}
+    declared = {a["name"] for a in c["agents"]}
+    mh = c.get("must_host") or {}
+    listed = [x for l in mh.values() for x in l]
+    hw = o.get("host_with") or {}
+    return (all(a in declared for a in mh) and len(set(listed)) == len(listed)
+            and all(x in comps for x in listed)
+            and all(x in comps for l in hw.values() for x in l))
+
+
 def coq_case(c, o):
     if c["method"] not in COQ_METHOD or c.get("via") != "api":
         return None
     rnd = [c["rnd"][i % dc.NRND] for i in range(o["nrnd"])]
     shuf = q.lst([q.zlist([dc.cid(x) for x in l]) for l in o["shuffles"]])
     choices = q.lst([q.nat(i) for i in o["choices"]])
-    return "(mkCase %s %s %s %s %s %s)" % (COQ_METHOD[c["method"]], inst_term(c, o), q.zlist(rnd),
+    case = "(mkCase %s %s %s %s %s %s)" % (COQ_METHOD[c["method"]], inst_term(c, o), q.zlist(rnd),
                                           shuf, choices, obs_term(o["result"]))
+    # guards of valid_or_impossible_adhoc as the harness sees them: hints well-formed, and the
+    # classifier predicate of C23-adhoc-secp-hostwith is false (M_Dist2.guard_ok compares them
+    # with the Coq guards and applies the theorem's conclusion to the OBSERVED result)
+    return "(mkCase2 %s %s %s)" % (case, q.b(hints_wf_py(c, o)), q.b(not secp_factors(c, o)))
 
 
 def nontrivial(c, o):
@@ -229,4 +265,9 @@ def histogram(cases, obs):
         r = o.get("result", {})
         k = "%s/%s" % (c["method"], "ok" if "mapping" in r else r.get("error", "driver"))
         h[k] = h.get(k, 0) + 1
+        if c["method"] == "adhoc" and "graph" in o:
+            if "mapping" in r and len(o.get("shuffles", [])) > 1:
+                h["adhoc/ok-after-retry"] = h.get("adhoc/ok-after-retry", 0) + 1
+            if hints_wf_py(c, o) and not secp_factors(c, o):
+                h["adhoc/theorem-guards-hold"] = h.get("adhoc/theorem-guards-hold", 0) + 1
     return h
